@@ -63,6 +63,24 @@ pub(crate) fn api_scope() -> Scope {
         .service(add_snapshot::service)
 }
 
+/// Check that a request body was received in full.
+///
+/// When a client's connection closes in the middle of an upload, the HTTP layer reports the
+/// end of the body just as if the upload had completed, so the only sign of the truncation is
+/// that fewer bytes arrived than the `Content-Length` header announced. Such a body must be
+/// refused, not stored as a (truncated) history segment or snapshot.
+pub(crate) fn check_body_complete(req: &HttpRequest, received: usize) -> Result<()> {
+    let declared = req
+        .headers()
+        .get(actix_web::http::header::CONTENT_LENGTH)
+        .and_then(|v| v.to_str().ok())
+        .and_then(|v| v.parse::<usize>().ok());
+    match declared {
+        Some(declared) if declared != received => Err(error::ErrorBadRequest("Incomplete body")),
+        _ => Ok(()),
+    }
+}
+
 /// Convert a `anyhow::Error` to an Actix ISE
 fn failure_to_ise(err: anyhow::Error) -> actix_web::Error {
     error::ErrorInternalServerError(err)
